@@ -1,6 +1,16 @@
-"""Serialise selected functions of verde/coordinates.py (read from /repo on every run) into PyLite
-terms (coq/theories/Lib/PyLite.v).  Fail closed: any construct outside the fragment raises
-Unsupported, which the check reports as a broken tie."""
+"""Serialise selected functions of a verde module (read from the checkout under test on every run)
+into PyLite terms (coq/theories/Lib/PyLite.v).  Fail closed: any construct outside the fragment
+raises Unsupported, which the check reports as a broken tie.
+
+No interpretation happens here except:
+  * `obj.m(args)` / `obj.a` on something that is not an imported module become calls of the
+    pseudo-functions "meth:m" / "attr:a" with the object as first argument;
+  * keyword arguments are appended to the positional ones and recorded in the callee's name
+    (`np.searchsorted(a, v, side="right")` -> call of "np.searchsorted,side=" with [a; v; "right"]);
+  * `x.append(e)` as a statement, `x[i] = e`, `x[:k] = e` become the mutation statements of PyLite,
+    which rebind x.  That is faithful only if no alias of the object is live, so they are admitted
+    only when x provably (syntactically, see Fresh) holds a fresh list / array that has not escaped.
+  * the message expression of a `raise` is dropped (PyLite has one exception)."""
 import ast
 import os
 from fractions import Fraction
@@ -33,20 +43,12 @@ def const(v):
     raise Unsupported("constant %r" % (v,))
 
 
-BIN = {ast.Add: "Add", ast.Sub: "Sub", ast.Mult: "Mul", ast.Div: "Div"}
+BIN = {ast.Add: "Add", ast.Sub: "Sub", ast.Mult: "Mul", ast.Div: "Div", ast.FloorDiv: "FloorDiv", ast.Mod: "Mod"}
 CMP = {ast.Lt: "CLt", ast.LtE: "CLe", ast.Gt: "CGt", ast.GtE: "CGe", ast.Eq: "CEq", ast.NotEq: "CNe"}
 
 
 def lst(items):
     return "[" + "; ".join(items) + "]"
-
-
-def fname(node):
-    if isinstance(node, ast.Name):
-        return node.id
-    if isinstance(node, ast.Attribute):
-        return fname(node.value) + "." + node.attr
-    raise Unsupported("callee " + ast.dump(node))
 
 
 def int_const(node):
@@ -57,62 +59,182 @@ def int_const(node):
     raise Unsupported("non-constant index " + ast.dump(node))
 
 
-def expr(e):
-    if isinstance(e, ast.Name):
-        return "(EVar %s)" % cstr(e.id)
-    if isinstance(e, ast.Constant):
-        return const(e.value)
-    if isinstance(e, ast.BinOp) and type(e.op) in BIN:
-        return "(EBin %s %s %s)" % (BIN[type(e.op)], expr(e.left), expr(e.right))
-    if isinstance(e, ast.UnaryOp) and isinstance(e.op, ast.USub):
-        return "(ENeg %s)" % expr(e.operand)
-    if isinstance(e, ast.UnaryOp) and isinstance(e.op, ast.Not):
-        return "(ENot %s)" % expr(e.operand)
-    if isinstance(e, ast.BoolOp):
-        op = "EAnd" if isinstance(e.op, ast.And) else "EOr"
-        out = expr(e.values[-1])
-        for v in reversed(e.values[:-1]):
-            out = "(%s %s %s)" % (op, expr(v), out)
-        return out
-    if isinstance(e, ast.Compare):
-        parts = []
-        left = e.left
-        for op, right in zip(e.ops, e.comparators):
-            if isinstance(op, (ast.Is, ast.IsNot)):
-                if not (isinstance(right, ast.Constant) and right.value is None):
-                    raise Unsupported("is <non-None>")
-                parts.append("(EIsNone %s %s)" % (expr(left), "true" if isinstance(op, ast.IsNot) else "false"))
-            elif isinstance(op, (ast.In, ast.NotIn)):
-                if not isinstance(right, (ast.List, ast.Tuple)):
-                    raise Unsupported("in <non-literal>")
-                parts.append("(EIn %s %s %s)" % (expr(left), lst([expr(x) for x in right.elts]),
-                                                 "true" if isinstance(op, ast.NotIn) else "false"))
-            elif type(op) in CMP:
-                parts.append("(ECmp %s %s %s)" % (CMP[type(op)], expr(left), expr(right)))
-            else:
-                raise Unsupported("comparison " + ast.dump(op))
-            left = right
-        out = parts[-1]
-        for p in reversed(parts[:-1]):
-            out = "(EAnd %s %s)" % (p, out)
-        return out
-    if isinstance(e, ast.Call):
-        if e.keywords:
-            raise Unsupported("keyword arguments in call to " + fname(e.func))
-        return "(ECall %s %s)" % (cstr(fname(e.func)), lst([expr(a) for a in e.args]))
-    if isinstance(e, (ast.Tuple, ast.List)):
-        return "(ETuple %s)" % lst([expr(x) for x in e.elts])
-    if isinstance(e, ast.Subscript):
-        sl = e.slice
-        if isinstance(sl, ast.Slice):
-            if sl.lower is not None or sl.step is not None or sl.upper is None:
+def is_int_const(node):
+    try:
+        int_const(node)
+        return True
+    except Unsupported:
+        return False
+
+
+class Translator:
+    def __init__(self, modules):
+        self.modules = set(modules)     # names bound by import statements of the file
+
+    def dotted(self, node):
+        """a.b.c rooted at an imported module -> 'a.b.c', else None"""
+        if isinstance(node, ast.Name):
+            return node.id if node.id in self.modules else None
+        if isinstance(node, ast.Attribute):
+            base = self.dotted(node.value)
+            return None if base is None else base + "." + node.attr
+        return None
+
+    def call(self, e):
+        f = e.func
+        pos = list(e.args)
+        if any(isinstance(a, ast.Starred) for a in pos) or any(k.arg is None for k in e.keywords):
+            raise Unsupported("* / ** in call")
+        suffix = "".join(",%s=" % k.arg for k in e.keywords)
+        if isinstance(f, ast.Name) and f.id == "isinstance":
+            args = []
+        else:
+            args = [self.expr(a) for a in pos] + [self.expr(k.value) for k in e.keywords]
+        if isinstance(f, ast.Name):
+            if f.id == "isinstance":
+                # isinstance(x, str|tuple|list): the class is part of the callee's name
+                if (len(pos) == 2 and not e.keywords and isinstance(pos[1], ast.Name)
+                        and pos[1].id in ("str", "tuple", "list")):
+                    return "(ECall %s %s)" % (cstr("isinstance:" + pos[1].id), lst([self.expr(pos[0])]))
+                raise Unsupported("isinstance form")
+            return "(ECall %s %s)" % (cstr(f.id + suffix), lst(args))
+        if isinstance(f, ast.Attribute):
+            name = self.dotted(f)
+            if name is not None:
+                return "(ECall %s %s)" % (cstr(name + suffix), lst(args))
+            return "(ECall %s %s)" % (cstr("meth:" + f.attr + suffix), lst([self.expr(f.value)] + args))
+        raise Unsupported("callee " + ast.dump(f)[:100])
+
+    def expr(self, e):
+        expr = self.expr
+        if isinstance(e, ast.Name):
+            if e.id in self.modules:
+                raise Unsupported("module %s used as a value" % e.id)
+            return "(EVar %s)" % cstr(e.id)
+        if isinstance(e, ast.Constant):
+            return const(e.value)
+        if isinstance(e, ast.BinOp) and type(e.op) in BIN:
+            return "(EBin %s %s %s)" % (BIN[type(e.op)], expr(e.left), expr(e.right))
+        if isinstance(e, ast.UnaryOp) and isinstance(e.op, ast.USub):
+            return "(ENeg %s)" % expr(e.operand)
+        if isinstance(e, ast.UnaryOp) and isinstance(e.op, ast.Not):
+            return "(ENot %s)" % expr(e.operand)
+        if isinstance(e, ast.BoolOp):
+            op = "EAnd" if isinstance(e.op, ast.And) else "EOr"
+            out = expr(e.values[-1])
+            for v in reversed(e.values[:-1]):
+                out = "(%s %s %s)" % (op, expr(v), out)
+            return out
+        if isinstance(e, ast.Compare):
+            parts = []
+            left = e.left
+            if len(e.ops) > 1 and not all(isinstance(c, (ast.Name, ast.Constant)) for c in e.comparators[:-1]):
+                raise Unsupported("chained comparison with a compound middle operand")   # it would be evaluated twice
+            for op, right in zip(e.ops, e.comparators):
+                if isinstance(op, (ast.Is, ast.IsNot)):
+                    if not (isinstance(right, ast.Constant) and right.value is None):
+                        raise Unsupported("is <non-None>")
+                    parts.append("(EIsNone %s %s)" % (expr(left), "true" if isinstance(op, ast.IsNot) else "false"))
+                elif isinstance(op, (ast.In, ast.NotIn)):
+                    if not isinstance(right, (ast.List, ast.Tuple)):
+                        raise Unsupported("in <non-literal>")
+                    parts.append("(EIn %s %s %s)" % (expr(left), lst([expr(x) for x in right.elts]),
+                                                     "true" if isinstance(op, ast.NotIn) else "false"))
+                elif type(op) in CMP:
+                    parts.append("(ECmp %s %s %s)" % (CMP[type(op)], expr(left), expr(right)))
+                else:
+                    raise Unsupported("comparison " + ast.dump(op))
+                left = right
+            out = parts[-1]
+            for p in reversed(parts[:-1]):
+                out = "(EAnd %s %s)" % (p, out)
+            return out
+        if isinstance(e, ast.Call):
+            return self.call(e)
+        if isinstance(e, ast.Attribute):
+            if self.dotted(e) is not None:
+                raise Unsupported("module attribute " + self.dotted(e))
+            return "(ECall %s %s)" % (cstr("attr:" + e.attr), lst([expr(e.value)]))
+        if isinstance(e, (ast.Tuple, ast.List)):
+            if any(isinstance(x, ast.Starred) for x in e.elts):
+                raise Unsupported("starred element")
+            return "(ETuple %s)" % lst([expr(x) for x in e.elts])
+        if isinstance(e, ast.Subscript):
+            sl = e.slice
+            if isinstance(sl, ast.Slice):
+                if sl.step is not None:
+                    raise Unsupported("slice step")
+                if sl.lower is None and sl.upper is not None:
+                    return "(ESliceTo %s %s)" % (expr(e.value), cZ(int_const(sl.upper)))
+                if sl.lower is not None and sl.upper is None and int_const(sl.lower) >= 0:
+                    return "(ESliceFrom %s %s)" % (expr(e.value), cZ(int_const(sl.lower)))
                 raise Unsupported("slice form")
-            return "(ESliceTo %s %s)" % (expr(e.value), cZ(int_const(sl.upper)))
-        i = int_const(sl)
-        if i < 0:
-            raise Unsupported("negative index")
-        return "(EIndex %s %s)" % (expr(e.value), cZ(i))
-    raise Unsupported(ast.dump(e)[:200])
+            if isinstance(sl, ast.Tuple):
+                raise Unsupported("multi-dimensional index")
+            if is_int_const(sl) and int_const(sl) >= 0:
+                return "(EIndex %s %s)" % (expr(e.value), cZ(int_const(sl)))
+            return "(EIdx %s %s)" % (expr(e.value), expr(sl))
+        raise Unsupported(ast.dump(e)[:200])
+
+    def append_call(self, s):
+        """x.append(e) as a statement, x a local name"""
+        if (isinstance(s, ast.Expr) and isinstance(s.value, ast.Call) and isinstance(s.value.func, ast.Attribute)
+                and s.value.func.attr == "append" and isinstance(s.value.func.value, ast.Name)
+                and s.value.func.value.id not in self.modules
+                and len(s.value.args) == 1 and not s.value.keywords
+                and not isinstance(s.value.args[0], ast.Starred)):
+            return s.value.func.value.id, s.value.args[0]
+        return None
+
+    def stmts(self, body):
+        out = []
+        for s in body:
+            if isinstance(s, ast.Expr) and isinstance(s.value, ast.Constant) and isinstance(s.value.value, str):
+                continue   # docstring / stray string
+            if isinstance(s, ast.Assign):
+                if len(s.targets) != 1:
+                    raise Unsupported("chained assignment")
+                t = s.targets[0]
+                if isinstance(t, ast.Subscript):
+                    if not isinstance(t.value, ast.Name):
+                        raise Unsupported("assignment into a compound object")
+                    if isinstance(t.slice, ast.Slice):
+                        sl = t.slice
+                        if sl.lower is not None or sl.step is not None or sl.upper is None or int_const(sl.upper) < 0:
+                            raise Unsupported("slice assignment form")
+                        out.append("SSetSlice %s %s %s" % (cstr(t.value.id), cZ(int_const(sl.upper)), self.expr(s.value)))
+                    elif isinstance(t.slice, ast.Tuple):
+                        raise Unsupported("multi-dimensional assignment")
+                    else:
+                        out.append("SSetItem %s %s %s" % (cstr(t.value.id), self.expr(t.slice), self.expr(s.value)))
+                else:
+                    out.append("SAssign %s %s" % (lst([cstr(n) for n in target_names(t)]), self.expr(s.value)))
+            elif isinstance(s, ast.AugAssign):
+                if not isinstance(s.target, ast.Name) or type(s.op) not in BIN:
+                    raise Unsupported("augmented assignment")
+                out.append("SAug %s %s %s" % (cstr(s.target.id), BIN[type(s.op)], self.expr(s.value)))
+            elif isinstance(s, ast.If):
+                out.append("SIf %s %s %s" % (self.expr(s.test), self.stmts(s.body), self.stmts(s.orelse)))
+            elif isinstance(s, ast.For):
+                if s.orelse:
+                    raise Unsupported("for ... else")
+                out.append("SFor %s %s %s" % (lst([cstr(n) for n in target_names(s.target)]), self.expr(s.iter),
+                                              self.stmts(s.body)))
+            elif isinstance(s, ast.Raise):
+                out.append("SRaise")
+            elif isinstance(s, ast.Return):
+                out.append("SReturn %s" % (self.expr(s.value) if s.value is not None else "(EConst VNone)"))
+            elif isinstance(s, ast.Pass):
+                out.append("SPass")
+            elif isinstance(s, ast.Expr):
+                ap = self.append_call(s)
+                if ap is not None:
+                    out.append("SAppend %s %s" % (cstr(ap[0]), self.expr(ap[1])))
+                else:
+                    out.append("SExpr %s" % self.expr(s.value))
+            else:
+                raise Unsupported(type(s).__name__)
+        return lst(out)
 
 
 def target_names(t):
@@ -123,43 +245,146 @@ def target_names(t):
     raise Unsupported("assignment target " + ast.dump(t)[:100])
 
 
-def stmts(body):
-    out = []
-    for i, s in enumerate(body):
-        if isinstance(s, ast.Expr) and isinstance(s.value, ast.Constant) and isinstance(s.value.value, str):
-            continue   # docstring / stray string
-        if isinstance(s, ast.Assign):
-            if len(s.targets) != 1:
-                raise Unsupported("chained assignment")
-            out.append("SAssign %s %s" % (lst([cstr(n) for n in target_names(s.targets[0])]), expr(s.value)))
-        elif isinstance(s, ast.AugAssign):
-            if not isinstance(s.target, ast.Name) or type(s.op) not in BIN:
-                raise Unsupported("augmented assignment")
-            out.append("SAug %s %s %s" % (cstr(s.target.id), BIN[type(s.op)], expr(s.value)))
-        elif isinstance(s, ast.If):
-            out.append("SIf %s %s %s" % (expr(s.test), stmts(s.body), stmts(s.orelse)))
-        elif isinstance(s, ast.Raise):
-            out.append("SRaise")
-        elif isinstance(s, ast.Return):
-            out.append("SReturn %s" % (expr(s.value) if s.value is not None else "(EConst VNone)"))
-        elif isinstance(s, ast.Pass):
-            out.append("SPass")
+# ---------------------------------------------------------------------------------------------------
+# Freshness: PyLite models mutation by rebinding the mutated variable.  We admit a mutation of x only
+# where x certainly holds an object created in this function that no other name / container / callee
+# can reach: x was last assigned a list display (`[...]`), `list(...)` or `np.array(...)` (a copy),
+# and since then has only been used as `x[...]` (a load), `len(x)`, as the mutated object itself, or
+# in a `return`.  Any other occurrence (y = x, f(x), (x, y), x.m() ...) makes x non-fresh.  Branches
+# are joined by intersection, loop bodies are iterated to a fixed point, and a loop body may not mutate
+# a name that occurs in the loop's iterable.
+FRESH_LIST_CALLS = {"list"}
+FRESH_ARRAY_CALLS = {"np.array"}
+
+
+class Fresh:
+    def __init__(self, tr):
+        self.tr = tr
+
+    def kind(self, e):
+        if isinstance(e, ast.List):
+            return "list"
+        if isinstance(e, ast.Call) and not e.keywords:
+            if isinstance(e.func, ast.Name) and e.func.id in FRESH_LIST_CALLS:
+                return "list"
+            if self.tr.dotted(e.func) in FRESH_ARRAY_CALLS:
+                return "array"
+        return None
+
+    def escaping(self, e, out):
+        """names that occur in e other than as the object of a subscript load or the argument of len"""
+        if e is None:
+            return
+        if isinstance(e, ast.Name):
+            out.add(e.id)
+        elif isinstance(e, ast.Subscript) and isinstance(e.value, ast.Name):
+            self.escaping(e.slice, out)
+        elif (isinstance(e, ast.Call) and isinstance(e.func, ast.Name) and e.func.id == "len" and len(e.args) == 1
+              and isinstance(e.args[0], ast.Name) and not e.keywords):
+            pass
         else:
-            raise Unsupported(type(s).__name__)
-    return lst(out)
+            for c in ast.iter_child_nodes(e):
+                self.escaping(c, out)
+
+    def drop(self, state, names):
+        for n in names:
+            state.pop(n, None)
+
+    def need(self, state, x, kinds, frozen, what):
+        if x in frozen:
+            raise Unsupported("%s of %s inside a loop over it" % (what, x))
+        if state.get(x) not in kinds:
+            raise Unsupported("%s of %s, which may be aliased (not a fresh %s)" % (what, x, "/".join(kinds)))
+
+    def block(self, body, state, frozen):
+        for s in body:
+            esc = set()
+            if isinstance(s, ast.Assign):
+                t = s.targets[0]
+                self.escaping(s.value, esc)
+                if isinstance(t, ast.Subscript):
+                    self.escaping(t.slice, esc)
+                    x = t.value.id
+                    self.drop(state, esc)
+                    self.need(state, x, ("list", "array"), frozen, "item assignment")
+                else:
+                    self.drop(state, esc)
+                    names = target_names(t)
+                    self.drop(state, names)
+                    k = self.kind(s.value)
+                    if k is not None and len(names) == 1:
+                        state[names[0]] = k
+            elif isinstance(s, ast.AugAssign):
+                self.escaping(s.value, esc)
+                self.drop(state, esc | {s.target.id})
+            elif isinstance(s, ast.If):
+                self.escaping(s.test, esc)
+                self.drop(state, esc)
+                a = dict(state)
+                b = dict(state)
+                self.block(s.body, a, frozen)
+                self.block(s.orelse, b, frozen)
+                state.clear()
+                state.update({k: v for k, v in a.items() if b.get(k) == v})
+            elif isinstance(s, ast.For):
+                self.escaping(s.iter, esc)
+                self.drop(state, esc | set(target_names(s.target)))
+                inner_frozen = frozen | {n.id for n in ast.walk(s.iter) if isinstance(n, ast.Name)}
+                while True:
+                    a = dict(state)
+                    self.drop(a, target_names(s.target))
+                    self.block(s.body, a, inner_frozen)
+                    joined = {k: v for k, v in state.items() if a.get(k) == v}
+                    if joined == state:
+                        break
+                    state.clear()
+                    state.update(joined)
+            elif isinstance(s, ast.Expr):
+                ap = self.tr.append_call(s)
+                if ap is not None:
+                    x, arg = ap
+                    self.escaping(arg, esc)
+                    self.drop(state, esc)
+                    self.need(state, x, ("list",), frozen, "append")
+                else:
+                    self.escaping(s.value, esc)
+                    self.drop(state, esc)
+            elif isinstance(s, ast.Return):
+                pass      # the function ends: nothing can observe an alias from inside
+            elif isinstance(s, (ast.Raise, ast.Pass)):
+                pass
+            else:
+                raise Unsupported(type(s).__name__)
+
+
+def imported_names(tree):
+    names = set()
+    for n in tree.body:
+        if isinstance(n, ast.Import):
+            for a in n.names:
+                names.add((a.asname or a.name).split(".")[0])
+        elif isinstance(n, ast.ImportFrom):
+            for a in n.names:
+                names.add(a.asname or a.name)
+    return names
 
 
 def translate(path, names):
     tree = ast.parse(open(path).read())
+    tr = Translator(imported_names(tree))
     found = {}
     for n in tree.body:
         if isinstance(n, ast.FunctionDef) and n.name in names:
             a = n.args
             if a.vararg or a.kwarg or a.kwonlyargs or a.posonlyargs:
                 raise Unsupported("signature of " + n.name)
+            if n.decorator_list:
+                raise Unsupported("decorated function " + n.name)
             params = [x.arg for x in a.args]
+            body = tr.stmts(n.body)
+            Fresh(tr).block([s for s in n.body], {}, frozenset())
             found[n.name] = "Definition src_%s : func :=\n  {| f_params := %s;\n     f_body := %s |}.\n" % (
-                n.name, lst([cstr(p) for p in params]), stmts(n.body))
+                n.name, lst([cstr(p) for p in params]), body)
     missing = [n for n in names if n not in found]
     if missing:
         raise Unsupported("functions not found: %s" % missing)
@@ -169,6 +394,8 @@ def translate(path, names):
 if __name__ == "__main__":
     import sys
     repo = sys.argv[1] if len(sys.argv) > 1 else "/repo"
-    for k, v in translate(os.path.join(repo, "verde", "coordinates.py"),
-                          ["check_region", "get_region", "pad_region", "spacing_to_size", "line_coordinates"]).items():
+    mod = sys.argv[2] if len(sys.argv) > 2 else "verde/coordinates.py"
+    fns = sys.argv[3].split(",") if len(sys.argv) > 3 else [
+        "check_region", "get_region", "pad_region", "spacing_to_size", "line_coordinates", "shape_to_spacing"]
+    for k, v in translate(os.path.join(repo, mod), fns).items():
         print(v)
